@@ -4,8 +4,8 @@ import Gv.Model.Clean
 Model of `Alignment.Frameshifts(startingGapsAsIncomplete)` and `Alignment.Stops(startingGapsAsIncomplete,
 geneticcode)` of `align/align.go` (properties C14 / C16): the statistics `goalign phasent` prints about the pairwise
 alignment of a phased sequence (second row) with its reference ORF (first row).  The loops are mirrored as they are:
-one state per column, the "longest so far" record of `Frameshifts`, the `i < Length()-2` bound of `Stops`, and the two
-variables (`phase`, `started`) that `Stops` declares OUTSIDE the loop over the rows (they are carried from one row to
+one state per column, the "longest so far" record of `Frameshifts`; `Stops` as repaired in /repo (every column read, `phase` / `started` per row:
+before the repair the column loop stopped at `Length()-2` and the two variables were carried from one row to
 the next).  Core-only.
 -/
 namespace Gv.Model
@@ -63,7 +63,7 @@ def frameshifts (rows : CRows) (flag : Bool) : Option (List (Nat × Nat)) :=
 lookup (no IUPAC expansion) -/
 def stopAA (code : List (List Byte × Byte)) (codon : List Byte) : Byte := (lookup (codon.map fixNt) code).getD 88
 
-/-- the column loop of `Stops` for one row, over the columns `i < Length()-2`; the result is `stops[s]` (−1: no
+/-- the column loop of `Stops` for one row, over the columns it is given; the result is `stops[s]` (−1: no
 `break`) and the values `phase`, `started` have when the loop ends -/
 def stopsLoop (code : List (List Byte × Byte)) (flag : Bool) : List (Byte × Byte) → Nat → Bool → Nat → List Byte → Int × Nat × Bool
   | [], phase, started, _, _ => (-1, phase, started)
@@ -77,12 +77,15 @@ def stopsLoop (code : List (List Byte × Byte)) (flag : Bool) : List (Byte × By
       else stopsLoop code flag t p.1 p.2.1 pos []
     else stopsLoop code flag t p.1 p.2.1 pos codon
 
-/-- the loop over the rows `s = 1 …`: `phase` and `started` are not reset between rows -/
+/-- the loop over the rows `s = 1 …`.  Since the repair of /repo ("fix: Stops reads every column and starts each
+sequence afresh") every column is read and `phase` / `started` are declared inside the loop over the rows; the two extra
+arguments are kept (and ignored) so that callers and proofs keep their shape.  Before the repair the column loop stopped
+at `Length()-2` and the two variables were carried from row to row. -/
 def stopsRows (code : List (List Byte × Byte)) (flag : Bool) (ref : Seq) : List Seq → Nat → Bool → List Int
   | [], _, _ => []
   | s :: t, phase, started =>
-    let r := stopsLoop code flag ((ref.zip s).take (ref.length - 2)) phase started 0 []
-    r.1 :: stopsRows code flag ref t r.2.1 r.2.2
+    let r := stopsLoop code flag (ref.zip s) 0 false 0 []
+    r.1 :: stopsRows code flag ref t phase started
 
 inductive StopsRes where
   | err | panic | ok (l : List Int)
